@@ -66,6 +66,9 @@ int32_t jls_dt_buffer_to_f64(const void * src, uint32_t src_datatype, double * d
                 *dst++ = (double) ((k >> 6) & 1);
                 *dst++ = (double) ((k >> 7) & 1);
             }
+            for (uint32_t bit = 0; bit < (samples & 7); ++bit) {  // the samples of a last, partial byte
+                *dst++ = (double) ((s[samples / 8] >> bit) & 1);
+            }
             break;
         }
         case JLS_DATATYPE_U4:  {
